@@ -13,5 +13,15 @@ def v(path, schema):
 v("/verif/MANIFEST.json", "/root/.vp/MANIFEST.schema.json")
 for f in sorted(glob.glob("/verif/evidence/C*.json")):
     v(f, "/root/.vp/EVIDENCE.schema.json")
+m = json.load(open("/verif/MANIFEST.json"))
+for c in m["checks"]:
+    try:
+        ev = json.load(open(c["evidence_file"]))
+    except Exception as e:
+        ok = False; print("MISSING evidence", c["property_id"]); continue
+    if ev["level"] != c["level_claimed"]["category"]:
+        ok = False; print("LEVEL MISMATCH", c["property_id"], "evidence", ev["level"], "manifest", c["level_claimed"]["category"])
+    if ev["property_id"] != c["property_id"]:
+        ok = False; print("ID MISMATCH", c["property_id"])
 print("ok" if ok else "FAILED")
 sys.exit(0 if ok else 1)
